@@ -21,7 +21,7 @@ from inline_snapshot import snapshot
 __all__ = [
     "Color", "Perm", "Outer", "DC", "DCD", "DCN", "AT", "PM", "NT", "NTD", "NoCode", "NoCodeBox", "BadCopy", "RaisesEq",
     "Unorderable", "REC", "rec", "ok", "mark", "check_eq", "check_le", "check_ge", "check_in", "G", "set_g",
-    "Is", "outsource", "snapshot", "defaultdict", "ident", "Plain", "EvilEq", "snapshot_alias", "NP", "NPBool", "check_example", "EXAMPLE_SRC", "KW", "Tags", "FTags", "rec_value", "in_thread", "BadList", "ATP", "DCI", "IPerm",
+    "Is", "outsource", "snapshot", "defaultdict", "ident", "Plain", "EvilEq", "snapshot_alias", "NP", "NPBool", "check_example", "EXAMPLE_SRC", "KW", "Tags", "FTags", "rec_value", "in_thread", "BadList", "ATP", "DCI", "IPerm", "NoCodeStmt",
 ]
 
 defaultdict = collections.defaultdict
@@ -146,6 +146,23 @@ class NoCode:
 
     def __eq__(self, other):
         if type(other) is not NoCode:
+            return NotImplemented
+        return self.n == other.n
+
+    __hash__ = None
+
+
+class NoCodeStmt:
+    """repr is Python code, but a statement and not an expression (`n=3`): recorded through HasRepr as well"""
+
+    def __init__(self, n):
+        self.n = n
+
+    def __repr__(self):
+        return f"n={self.n}"
+
+    def __eq__(self, other):
+        if type(other) is not NoCodeStmt:
             return NotImplemented
         return self.n == other.n
 
